@@ -360,9 +360,30 @@ pub fn gen_seq(seed: u64, ncases: u64, maxlen: u64, zero_ok: bool, rebuilds: boo
                             total += d as u128;
                             let kinds = ["snapshot", "package", "json", "display", "serde", "list"];
                             if quiet { out.push("state".to_string()); } else { out.push(format!("read {}", r.pick(&kinds))); }
-                            for (id, n) in [(am[i].0, am[i].1 + d), (am[j].0, am[j].1 - d)] {
-                                out.push(format!("upd qty {} {}", show_id(&id), n));
-                                let _ = lvl.update_order(pricelevel::OrderUpdate::UpdateQuantity { order_id: id, new_quantity: n });
+                            if r.chance(1, 3) {
+                                // … or: one order leaves and a NEW id with the same displayed and hidden quantity comes
+                                // (the three aggregates end where they started, the content does not)
+                                let victim = lvl.iter_orders().iter().find(|o| o.id() == am[j].0).map(|o| **o);
+                                if let Some(v) = victim {
+                                    fresh += 1;
+                                    let nid = pool_id(fresh + 500);
+                                    let twin = match v {
+                                        OrderType::IcebergOrder { price: p, visible_quantity, hidden_quantity, side, time_in_force, .. } =>
+                                            OrderType::IcebergOrder { id: nid, price: p, visible_quantity, hidden_quantity, side, timestamp: r.below(12), time_in_force, extra_fields: () },
+                                        other => OrderType::Standard { id: nid, price: other.price(), quantity: other.visible_quantity(), side: other.side(),
+                                                                       timestamp: r.below(12), time_in_force: other.time_in_force(), extra_fields: () },
+                                    };
+                                    total += twin.visible_quantity() as u128 + twin.hidden_quantity() as u128;
+                                    out.push(format!("upd cancel {}", show_id(&am[j].0)));
+                                    let _ = lvl.update_order(pricelevel::OrderUpdate::Cancel { order_id: am[j].0 });
+                                    out.push(format!("add {}", show_order(&twin)));
+                                    lvl.add_order(twin);
+                                }
+                            } else {
+                                for (id, n) in [(am[i].0, am[i].1 + d), (am[j].0, am[j].1 - d)] {
+                                    out.push(format!("upd qty {} {}", show_id(&id), n));
+                                    let _ = lvl.update_order(pricelevel::OrderUpdate::UpdateQuantity { order_id: id, new_quantity: n });
+                                }
                             }
                             if !quiet { out.push(format!("read {}", r.pick(&kinds))); }
                             out.push("state".to_string());
@@ -598,8 +619,24 @@ pub fn gen_seqx(seed: u64, thorough: bool, out: &Sink) {
 /// driver, so one case per run; thorough: both kinds.)
 pub fn gen_deep(seed: u64, thorough: bool, out: &Sink) {
     let mut r = Rng::new(seed ^ 0x4445_4550);
+    {
+        // a WIDE level: 1 100 - 5 000 distinct makers (past 1 024 and 4 096), all swept by one call, then listed
+        let n = *r.pick(&[1_100u64, 2_200, 4_200, 5_000]);
+        out.push("case wide".to_string());
+        out.push("new 100".to_string());
+        out.push("quiet on".to_string());
+        for i in 0..n {
+            let o = mk_order(if i % 7 == 3 { 5 } else { 0 }, pool_id(10_000 + i), 100, 1 + i % 3, if i % 7 == 3 { 1 } else { 0 }, 0, None, false, Side::Sell, i % 50, TimeInForce::Gtc);
+            out.push(format!("add {}", show_order(&o)));
+        }
+        out.push("quiet off".to_string());
+        out.push("state".to_string());
+        out.push(format!("match {} {}", 1u64 << 40, show_id(&pool_id(900))));
+        out.push("state".to_string());
+    }
     let kinds: Vec<u8> = if thorough { vec![5, 6] } else { vec![if seed % 2 == 0 { 5 } else { 6 }] };
     for (case, kind) in kinds.into_iter().enumerate() {
+        let case = case + 1;
         let price = 100u64;
         let vis = r.range(1, 3);
         let tranches = r.range(66_000, 90_000);
